@@ -1176,3 +1176,62 @@ def rule_required_links(ctx, R):
             ctx.violation(R, f.short, "segments=%d,overlaps=%s" % (
                 n, ",".join(ovs)), "requires %r, expected %r" % (got, want))
     ctx.exhaustive[R] = True
+
+
+# --------------------------------------------------------------------------
+def rule_group_merge_tags(ctx, R):
+    """shared by C03 and C20: the tags a later line of a multi-line group
+    inherits from the earlier definition keep their datatype"""
+    ctx.rule(R, "SameID._import_tags_of_previous_group_definition: a tag the "
+             "new line of a group does not define is taken from the previous "
+             "definition with its value *and* its datatype (a J list of "
+             "integers does not become a B array, an f tag holding 3 does "
+             "not become i), whichever of the two lines arrived first",
+             floor=4)
+    repo = ctx.repo
+    U = repo.cls("line.group.Unordered")
+    f = ctx.anchor("SameID._import_tags_of_previous_group_definition",
+                   U.find_method("_import_tags_of_previous_group_definition"))
+
+    class MH(LineHooks):
+        def before_inline(self, ev, func, args, kwargs):
+            if func.name == "_get_default_gfa_tag_datatype":
+                v = args[0]
+                return "B" if isinstance(v, list) else \
+                    "i" if isinstance(v, int) else "Z"
+            if func.name in ("_define_field_methods",):
+                return None
+            if func.name == "_is_valid_custom_tagname":
+                return True
+            if func.name == "_validate_gfa_field":
+                return None
+            return NotImplemented
+
+        def method(self, ev, base, name, args, kwargs, node):
+            # the field storage of the two lines is the real one
+            if name in ("_set_existing_field", "get", "set"):
+                return NotImplemented
+            return super().method(ev, base, name, args, kwargs, node)
+    for vl, (value, dt) in itertools.product(
+            (0, 1, 3), (([1, 2], "J"), (3, "f"), ("txt", "Z"))):
+        ctx.instance(R)
+        prev = Abs(U, label="previous", vlevel=vl, _virtual=False,
+                   virtual=False, _gfa=None,
+                   _data={"uid": "u", "items": [], "xx": value},
+                   _datatype={"xx": dt}, tagnames=["xx"])
+        new = Abs(U, label="new", vlevel=vl, _virtual=False, virtual=False,
+                  _gfa=None, _data={"uid": "u", "items": []}, _datatype={})
+        try:
+            out = eval_function(repo, f, [new, prev], hooks=MH(repo))
+        except Unsupported as e:
+            raise AnalysisError(str(e))
+        got_v = new.attrs["_data"].get("xx")
+        got_dt = new.attrs["_datatype"].get("xx")
+        ok = out[0] in ("return", "fall") and got_dt == dt and \
+            (got_v == value or got_v is value)
+        ctx.oblige(ok)
+        if not ok:
+            ctx.violation(R, f.short, "tag xx:%s:%r,vlevel=%d" % (
+                dt, value, vl), "the merged line holds %r with datatype %r "
+                "(outcome %r)" % (got_v, got_dt, out[0:2]))
+    ctx.exhaustive[R] = True
